@@ -554,6 +554,13 @@ func c17(c *engine.Ctx) {
 				if !inner {
 					continue
 				}
+				// a predicate helper `if disabled(lastGasPrice, params) { return lastGasPrice }`
+				if call, isCall := ast.Unparen(gt.Full()).(*ast.CallExpr); isCall {
+					for _, kind := range c17PredicateKinds(calc, call, lastPrice, paramsP, amountF) {
+						found[kind] = true
+					}
+					continue
+				}
 				l, op, r, isCmp := authdCmp(authdFact{E: gt.Full()})
 				if !isCmp || op != token.EQL {
 					continue
@@ -788,17 +795,18 @@ func c17DivisorNonZero(c *engine.Ctx, p *engine.Prog, f *engine.Fn, g *engine.Gr
 	if defs := authdAssignsTo(f, o); !(len(defs) == 1 && !isParam) && !(len(defs) == 0 && isParam) {
 		return false, "divisor variable " + o.Name() + " is assigned more than once"
 	}
-	mut := false
+	var muts []*engine.Site
 	for _, cs := range f.Calls() {
 		if se, ok := ast.Unparen(cs.Call.Fun).(*ast.SelectorExpr); ok && engine.ObjOf(info, se.X) == o {
 			nm := cs.CalleeName()
 			if strings.HasPrefix(nm, c17Big) && !c17BigPure[strings.TrimPrefix(nm, c17Big)] {
-				mut = true
+				muts = append(muts, cs)
 			}
 		}
 	}
-	if mut {
-		return false, "divisor variable " + o.Name() + " is modified in place"
+	// the division must not write into its own divisor
+	if se, ok := ast.Unparen(s.Call.Fun).(*ast.SelectorExpr); ok && engine.ObjOf(info, se.X) == o {
+		return false, "the division overwrites its own divisor " + o.Name()
 	}
 	for _, gt := range g.Gates(s) {
 		for _, fc := range authdFacts(gt) {
@@ -813,6 +821,13 @@ func c17DivisorNonZero(c *engine.Ctx, p *engine.Prog, f *engine.Fn, g *engine.Gr
 			}
 			if se, ok := ast.Unparen(call.Fun).(*ast.SelectorExpr); ok && engine.ObjOf(info, se.X) == o {
 				if op == token.GTR || op == token.LSS || op == token.NEQ {
+					// the value must not change between the test and the division
+					test := f.SiteOf(call)
+					for _, m := range muts {
+						if test == nil || g.ReachableAfter(test, m) {
+							return false, "divisor variable " + o.Name() + " is modified in place after its non-zero test"
+						}
+					}
 					return true, "dominated by a " + o.Name() + ".Sign() " + op.String() + " 0 test"
 				}
 			}
@@ -1095,4 +1110,109 @@ func c17PositiveSource(p *engine.Prog, f *engine.Fn, e ast.Expr, depth int) (boo
 		return false, "divisor variable " + o.Name() + " has no single definition"
 	}
 	return c17PositiveSource(p, f, defs[0], depth-1)
+}
+
+// c17StayKind classifies a lone comparison `x == 0` as one of the stay-put
+// conditions, last/params being the price / Params objects of fn.
+func c17StayKind(fn *engine.Fn, cond ast.Expr, last, params types.Object, amountF *types.Var) string {
+	info := fn.Info()
+	if len(engine.Conjuncts(cond, token.LAND)) != 1 || len(engine.Conjuncts(cond, token.LOR)) != 1 {
+		return ""
+	}
+	l, op, r, isCmp := authdCmp(authdFact{E: cond})
+	if !isCmp || op != token.EQL {
+		return ""
+	}
+	if _, isC := authdConstInt(info, l); isC {
+		l, r = r, l
+	}
+	if k, isK := authdConstInt(info, r); !isK || k != 0 {
+		return ""
+	}
+	switch {
+	case authdIsField(info, l, amountF) && last != nil && engine.Mentions(info, l, last) && !engine.MentionsName(l, "InitialGasPrice"):
+		return "price==0"
+	case engine.MentionsName(l, "TargetGasRatio") && params != nil && engine.Mentions(info, l, params):
+		return "ratio==0"
+	}
+	return ""
+}
+
+// c17PredicateKinds: call is a package-local boolean predicate applied to the
+// last price and/or the params; returns the stay-put kinds of its true-returns
+// (nil when some true-return is not a recognised stay-put condition).
+func c17PredicateKinds(f *engine.Fn, call *ast.CallExpr, last, params types.Object, amountF *types.Var) []string {
+	st := f.SiteOf(call)
+	if st == nil {
+		return nil
+	}
+	fn, _ := st.Callee.(*types.Func)
+	h := f.Prog.FnOf(fn)
+	if h == nil || h == f {
+		return nil
+	}
+	info := f.Info()
+	var hl, hp types.Object
+	hops := authdOperands(h)
+	var args []ast.Expr
+	if se, ok := ast.Unparen(call.Fun).(*ast.SelectorExpr); ok {
+		if sel, ok := info.Selections[se]; ok && sel.Kind() == types.MethodVal {
+			args = append(args, se.X)
+		}
+	}
+	args = append(args, call.Args...)
+	for i, a := range args {
+		if i >= len(hops) || hops[i] == nil || len(authdAssignsTo(h, hops[i])) != 0 {
+			continue
+		}
+		switch engine.ObjOf(info, a) {
+		case last:
+			hl = hops[i]
+		case params:
+			hp = hops[i]
+		}
+	}
+	var kinds []string
+	hg := h.Graph()
+	for _, rs := range authdReturns(h) {
+		if len(rs.Results) != 1 {
+			return nil
+		}
+		bv, isLit := authdIsBoolLit(h.Info(), rs.Results[0])
+		if isLit && !bv {
+			continue
+		}
+		var conds []ast.Expr
+		if isLit {
+			rst := h.SiteOf(rs)
+			if rst == nil {
+				return nil
+			}
+			gates := hg.Gates(rst)
+			for _, gt := range gates {
+				inner := true
+				for _, o := range gates {
+					if o.Block != gt.Block && hg.BlockDominates(gt.Block, o.Block) {
+						inner = false
+					}
+				}
+				if inner && gt.OnTrue {
+					conds = append(conds, engine.Conjuncts(gt.Full(), token.LOR)...)
+				}
+			}
+		} else {
+			conds = engine.Conjuncts(rs.Results[0], token.LOR)
+		}
+		if len(conds) == 0 {
+			return nil
+		}
+		for _, cd := range conds {
+			k := c17StayKind(h, cd, hl, hp, amountF)
+			if k == "" {
+				return nil
+			}
+			kinds = append(kinds, k)
+		}
+	}
+	return kinds
 }
